@@ -10,49 +10,80 @@
   Model: `QV.Model.ZoneFile.*`.  Spec: `QV.Spec.ZoneFile` — a presentation AST with the
   writer's choices, `render…` to octets and `denote…` to records; nothing there mentions the
   parser.  The theorems have the shape  `WF p → parse (render p) = denote p`  and are staged
-  bottom-up; every stage is a theorem for ALL presentations of its kind (no bounds).
+  bottom-up; every stage is a theorem for ALL presentations of its kind (no bounds on lengths,
+  counts or nesting).
 
-  PROVED (full strength for the stated forms)
-   * integer fields; `\X` and `\DDD` escapes; domain names in any mix of raw / `\X` / `\DDD`
-     octet forms (incl. escaped dots, blanks, newlines, with the line count): absolute names,
-     relative names completed with the origin, `@`; the lexical layer on blanks, comments and
-     line ends;
-   * TYPE and CLASS fields: the mnemonics (A NS MD MF CNAME SOA MB MG MR WKS PTR HINFO MINFO MX
-     TXT AAAA SRV; IN CH HS) in any mix of upper and lower case, and `TYPEnnn` / `CLASSnnn`;
-   * RDATA (`C23_rdata_partial`): `\# len hex` for any class and type, checked against
-     `Rdata::validate`; and the typed syntaxes of A (IN), NS MD MF CNAME MB MG MR PTR (one name),
-     MX, SOA, MINFO, SRV (IN), TXT, HINFO, AAAA (IN; eight hexadecimal groups written in full, with `::` for a run of zero groups,
-     and/or ending in a dotted quad), Chaosnet A (name and octal
-     address) —
-     names absolute, relative or `@`, in any octet forms;
-     character-strings quoted or unquoted, each octet raw, `\X` or `\DDD`, with raw newlines inside
-     quotes; all with the lines they span;
+  ══ REPORT ══
+
+  PROVED (18 theorems; `_partial` = for the presentation subset described here)
+   * integer fields (`C23_integer_field`); `\X` and `\DDD` escapes (`C23_escapes`); domain names
+     in any mix of raw / `\X` / `\DDD` octet forms, incl. escaped dots, blanks and newlines with
+     the line count: absolute names, relative names completed with the origin, `@`
+     (`C23_absolute_name`, `C23_relative_name`, `C23_name_field`);
+   * TYPE and CLASS fields (`C23_class_type_forms`, `C23_mnemonics`): the mnemonics A NS MD MF
+     CNAME SOA MB MG MR WKS PTR HINFO MINFO MX TXT AAAA SRV and IN CH HS in any mix of upper and
+     lower case, and `TYPEnnn` / `CLASSnnn`;
+   * RDATA (`C23_generic_rdata`, `C23_rdata_partial`): `\# len hex` for any class and type,
+     checked against `Rdata::validate`; the typed syntaxes of A (IN), NS MD MF CNAME MB MG MR PTR,
+     MX, SOA, MINFO, SRV (IN), TXT, HINFO, AAAA (IN: eight groups in full, `::` for a run of zero
+     groups, and/or a dotted quad at the end), Chaosnet A (name and octal address), WKS (IN:
+     address, `TCP` / `UDP` in any case or a number, any ports — `C23_wks_text`); names absolute,
+     relative or `@` in any octet forms; character-strings quoted or unquoted, each octet raw,
+     `\X` or `\DDD`, raw newlines inside quotes; all with the lines they span;
    * gaps and line ends (`C23_gaps`): between fields any mix of blanks, `(`, `)` and — inside
-     parentheses — line ends (LF or CRLF) with optional comments; at the end of a record or line
-     such a gap that closes the parentheses, an optional comment, LF or CRLF; the line count and
-     the parenthesis state follow;
-   * records assembled from these, with TTL and class each written or omitted, in either order (context
-     defaults: `$TTL` default before previous TTL; previous class), owner absolute / relative /
-     `@` / omitted (a leading blank ⇒ previous owner); all gaps of a record general (so records
-     may span lines in parentheses opened anywhere, the usual `SOA ( … )` style included);
-     `$ORIGIN`, `$TTL` and `$INCLUDE` directive lines, with general gaps too (the latter yield the include request with
-     the path — a quoted or unquoted string — and the origin given or current); blank and
-     comment-only lines; every line ending LF or CRLF, the last one possibly with the file;
-   * whole files of such entries: exactly the denoted records, in order, with line numbers
-     (`C23_records_partial`).
-  KNOWN FINDING D18 (WKS)
-     `serialize_in_wks` sets `1 << (port % 8)`; RFC 1035 §3.4.2 (bits numbered from the most
-     significant, §2.3.2) asks for `0x80 >> (port % 8)`.  `C23_wks_bitmap` proves, for all port
-     lists, that the code's bit map is the RFC's (`wksBitmap`, stated arithmetically) with every
-     octet bit-reversed, and that the repaired mask gives the RFC's; `C23_wks_bit_order_witness`
-     is the concrete record.  The model takes the order from the repository (extractor →
-     `Gen.wksMaskMsbFirst`), so the same theorems check against a repaired tree.
-  NOT PROVED (the gap; the name says `_partial`)
-     the typed RDATA syntax of WKS is not in the presentation AST (in the subset such RDATA can be
-     written in `\#` form).  It is covered on every run by the correspondence oracle, which is
-     independent of these proofs: the harness's pretty-printer renders random record lists with
-     random choices for *all* of the above and the expected parse is the generating record list
-     (op `zfp`, spec column = expected records; files with IN WKS ports: op `zfw`, group `zonewks`).
+     parentheses — line ends (LF or CRLF) with optional comments; at the end of a record or
+     directive such a gap that closes the parentheses, an optional comment, then LF, CRLF or the
+     end of the file; line count and parenthesis state follow;
+   * records (`C23_record_partial`): TTL and class each written or omitted, in either order
+     (defaults: `$TTL` value before the previous TTL; the previous class), owner absolute /
+     relative / `@` / omitted (leading blank ⇒ previous owner), every gap of the record general
+     (so parentheses may open anywhere, the usual `SOA ( … )` layout included); TTLs above
+     2^31 - 1 read as 0 (RFC 2181 §8);
+   * whole files (`C23_records_partial`; `exFile_ok` is a 31-line instance with every kind):
+     records, `$ORIGIN`, `$TTL` and `$INCLUDE` lines (the latter yield the include request:
+     path as quoted or unquoted string, origin given or current), blank and comment-only lines,
+     each line ending LF or CRLF, the last one possibly with the file — exactly the denoted
+     records and include requests, in order, with their line numbers;
+   * the WKS bit map (`C23_wks_bitmap`, `C23_wks_repository`, `C23_wks_bit_order_witness`): see
+     FINDING below.
+
+  ORACLE-ONLY (not in the presentation AST; exercised on every run by the correspondence
+  check, whose oracle is independent of these proofs — the harness's pretty-printer renders
+  random record lists with random choices and the expected parse is the generating list, ops
+  `zfp` / `zfw`)
+   * numbers written with a leading `+` or leading zeros (TTL, preferences, SOA counters, ports,
+     the `\#` length, octal addresses); upper-case hexadecimal digits in `\#` data and in AAAA
+     groups, AAAA groups with leading zeros; `$ORIGIN` / `$TTL` / `$INCLUDE` in lower or mixed
+     case (the AST writes numbers canonically, hexadecimal in lower case, keywords in upper case);
+   * the record lists of files that also contain malformed lines (what is yielded before the
+     first error): C24 proves validity of whatever is yielded, not equality with a denotation.
+
+  RESTRICTIONS of the proved subset (hypotheses `WF…` of the theorems)
+   * the root name `.` on its own is not a `PName` (`.abs` needs a label); an owner's text does
+     not begin with a raw `$` (it would be read as a directive: write `\$`);
+   * unquoted strings are non-empty; strings have at most 255 octets, names at most 255 octets
+     in wire form with labels of 1–63 octets (longer ones are errors, C24);
+   * comments contain no CR; a line end occurs only inside parentheses or at the end of the
+     entry; the file does not end inside parentheses;
+   * typed RDATA does not start with the two octets `\#` (that selects the RFC 3597 form);
+   * TYPE is not NULL, OPT or TSIG (rejected by the parser, C24); generic RDATA must pass
+     `Rdata::validate` for its class and type, otherwise the line is an error;
+   * WKS: see FINDING — `WksOrderOK`.
+  Model assumptions: those of C24 (the Reader's buffer abstracted to "the remaining input";
+  std's integer and address parsers re-implemented and compared on generated strings).
+
+  FINDING D18 (known, not repaired — the repository's unit test pins the behaviour)
+     `serialize_in_wks` (src/rr/rdata/std13.rs:415) sets `1 << (port % 8)`; RFC 1035 §3.4.2
+     with the bit numbering of §2.3.2 asks for `0x80 >> (port % 8)`.  `C23_wks_bitmap`: for all
+     port lists the code's bit map is the RFC's (`Spec.ZF.wksBitmap`, stated arithmetically from
+     port membership) with every octet bit-reversed, and the repaired mask gives the RFC's;
+     `C23_wks_bit_order_witness`: `a. 5 IN WKS 1.2.3.4 TCP 25` → `…00000002`, RFC `…00000040`.
+     The model takes the order from the repository (extractor → `Gen.wksMaskMsbFirst`), so all
+     theorems also check against a repaired tree.  `C23_rdata_partial` includes WKS under
+     `WksOrderOK ports`: the repository's order is the RFC's, or the bit map reads the same in
+     both orders (no ports; ports 0 and 7; …) — for the present code exactly the port lists on
+     which parser and denotation agree.  Check: op `zfw` (group `zonewks`) suppresses only the
+     pure bit-order difference; any other difference in a WKS record is a VIOLATION.
 -/
 import QV.Proofs.ZoneFile.Files
 import QV.Proofs.ZoneFile.Wks
@@ -203,6 +234,7 @@ private theorem mA : WFType (.mnemonic [97] 1) := ⟨"A", by decide, by decide +
 private theorem mTxt : WFType (.mnemonic [116, 120, 116] 16) := ⟨"TXT", by decide, by decide +kernel⟩
 private theorem mHinfo : WFType (.mnemonic [72, 105, 110, 102, 111] 13) := ⟨"HINFO", by decide, by decide +kernel⟩
 private theorem mAaaa : WFType (.mnemonic [97, 65, 97, 65] 28) := ⟨"AAAA", by decide, by decide +kernel⟩
+private theorem mWks : WFType (.mnemonic [87, 107, 115] 11) := ⟨"WKS", by decide, by decide +kernel⟩
 private theorem mMinfo : WFType (.mnemonic [77, 73, 78, 70, 79] 14) := ⟨"MINFO", by decide, by decide +kernel⟩
 
 private def nA : PName := .rel [] [(97, .raw)]
@@ -216,7 +248,7 @@ private def sD : PString := ⟨false, [(100, .dec)]⟩
     `$ORIGIN t.¶` `a\.b.\010c. iN 5 TYPE1 \# 4 01020304 ;x¬` `→¬` ` →TYPE16→\#(2;h¶ 0161)¶` `$TTL→(;x¶ 9 )¬`
     `w CLASS3 TYPE99 \# 0¶` `@ Ns a¶` ` mx 10 m\\\¶.\120.¶` ` SOA @ a ( 1 ;s¬ 2¶→3 4 4294967295 ) ;d¶`
     `a→( 7;¶→iN ) Srv 1 2 3 @¶` ` MINFO a m\\\¶.\120. ;¶` ` a (192.0.2.1)¬` ` (txt "a¶b\"" c\;d¬ \100)¶`
-    ` Hinfo "" \100¶` ` aAaA 2001:db8:0:0:0:0:ff:ffff¶` ` aAaA fe80::1¶` ` aAaA ::ffff:192.0.2.1¶` ` aAaA 1:2:3:4:5:6:10.0.0.255¶` `a cH a @ 177777¶` `$INCLUDE "x y" (a)¶` `$INCLUDE→z ;` (no line end) -/
+    ` Hinfo "" \100¶` ` aAaA 2001:db8:0:0:0:0:ff:ffff¶` ` aAaA fe80::1¶` ` aAaA ::ffff:192.0.2.1¶` ` aAaA 1:2:3:4:5:6:10.0.0.255¶` ` Wks 10.0.0.1 (tCp→0 7)¶` `a cH a @ 177777¶` `$INCLUDE "x y" (a)¶` `$INCLUDE→z ;` (no line end) -/
 def exFile : List PEntry :=
   [.origin [[(116, .raw)]] [.blank false] [] [] .lf,
    .record ⟨.named (.abs [[(97, .raw), (46, .esc), (98, .raw)], [(10, .dec), (99, .raw)]]), some 5,
@@ -245,11 +277,13 @@ def exFile : List PEntry :=
    .record ⟨.same, none, none, true, .mnemonic [97, 65, 97, 65] 28, .aaaaC [65152] [1], [], [], [], [], .lf⟩,
    .record ⟨.same, none, none, true, .mnemonic [97, 65, 97, 65] 28, .aaaaV4 [] (some [65535]) 192 0 2 1, [], [], [], [], .lf⟩,
    .record ⟨.same, none, none, true, .mnemonic [97, 65, 97, 65] 28, .aaaaV4 [1, 2, 3, 4, 5, 6] none 10 0 0 255, [], [], [], [], .lf⟩,
+   .record ⟨.same, none, none, true, .mnemonic [87, 107, 115] 11, .wks 10 0 0 1 (.mnemonic [116, 67, 112] 6) [0, 7], [],
+      [[.blank false], [.blank false, .openParen], [.blank true]], [.closeParen], [], .lf⟩,
    .record ⟨.named nA, none, some (.mnemonic [99, 72] 3), false, .mnemonic [97] 1, .chA .atSign 65535, [], [], [], [], .lf⟩,
    .incl ⟨true, [(120, .raw), (32, .raw), (121, .raw)]⟩ (some nA) [.blank false] [.blank false, .openParen] [.closeParen] [] .lf,
    .incl ⟨false, [(122, .raw)]⟩ none [.blank true] [] [.blank false] [59] .eof]
 
-/-- the example file is well-formed and denotes sixteen records and two include requests -/
+/-- the example file is well-formed and denotes seventeen records and two include requests -/
 theorem exFile_ok :
     (∀ e ∈ exFile, WFEntry e) ∧
     denoteFile validB exFile (toSCtx {}) 1 =
@@ -269,9 +303,10 @@ theorem exFile_ok :
             .record ⟨25, [1, 97, 1, 116, 0], 9, 1, 28, [254, 128, 0, 0, 0, 0, 0, 0, 0, 0, 0, 0, 0, 0, 0, 1]⟩,
             .record ⟨26, [1, 97, 1, 116, 0], 9, 1, 28, [0, 0, 0, 0, 0, 0, 0, 0, 0, 0, 255, 255, 192, 0, 2, 1]⟩,
             .record ⟨27, [1, 97, 1, 116, 0], 9, 1, 28, [0, 1, 0, 2, 0, 3, 0, 4, 0, 5, 0, 6, 10, 0, 0, 255]⟩,
-            .record ⟨28, [1, 97, 1, 116, 0], 9, 3, 1, [1, 116, 0, 255, 255]⟩,
-            .incl 29 [120, 32, 121] (some [1, 97, 1, 116, 0]),
-            .incl 30 [122] (some [1, 116, 0])] := by
+            .record ⟨28, [1, 97, 1, 116, 0], 9, 1, 11, [10, 0, 0, 1, 6, 129]⟩,
+            .record ⟨29, [1, 97, 1, 116, 0], 9, 3, 1, [1, 116, 0, 255, 255]⟩,
+            .incl 30 [120, 32, 121] (some [1, 97, 1, 116, 0]),
+            .incl 31 [122] (some [1, 116, 0])] := by
   refine ⟨?_, by decide +kernel⟩
   have wfA : WFName nA := by unfold nA WFName; exact ⟨by decide, by simp [LabelsOK, labelOctets], by decide⟩
   have wfMail : WFName nMail := by
@@ -280,7 +315,7 @@ theorem exFile_ok :
     intro n h; cases h
   intro e he
   simp only [exFile, List.mem_cons, List.mem_nil_iff, or_false] at he
-  rcases he with rfl | rfl | rfl | rfl | rfl | rfl | rfl | rfl | rfl | rfl | rfl | rfl | rfl | rfl | rfl | rfl | rfl | rfl | rfl | rfl | rfl
+  rcases he with rfl | rfl | rfl | rfl | rfl | rfl | rfl | rfl | rfl | rfl | rfl | rfl | rfl | rfl | rfl | rfl | rfl | rfl | rfl | rfl | rfl | rfl
   · exact ⟨⟨by simp, by decide, by simp [LabelsOK, labelOctets], by decide⟩, false, GapOK_of_B (by decide),
       TailOK_of_B (by decide)⟩
   · refine ⟨?_, by decide, ?_,
@@ -331,6 +366,10 @@ theorem exFile_ok :
   · exact ⟨noOwner, by decide, (by intro c hc; cases hc),
       ⟨mAaaa, by decide, by decide, by decide⟩, ⟨by decide, by decide, by decide, by decide, by decide, by decide⟩,
       gaps_ok_of_B _ (by decide)⟩
+  · exact ⟨noOwner, by decide, (by intro c hc; cases hc),
+      ⟨mWks, by decide, by decide, by decide⟩,
+      ⟨by decide, by decide, by decide, by decide, ⟨"TCP", by decide, by decide +kernel⟩, by decide, by decide, by decide⟩,
+      gaps_ok_of_B _ (by decide)⟩
   · refine ⟨?_, by decide, ?_, ⟨mA, by decide, by decide, by decide⟩, ⟨trivial, by decide, by decide⟩,
       gaps_ok_of_B _ (by decide)⟩
     · intro n hn; cases hn; exact ⟨wfA, by decide⟩
@@ -359,15 +398,16 @@ example : parseAll (renderFile exFile) {} =
      .item (.record 25 ⟨[1, 97, 1, 116, 0], 9, 1, 28, [254, 128, 0, 0, 0, 0, 0, 0, 0, 0, 0, 0, 0, 0, 0, 1]⟩),
      .item (.record 26 ⟨[1, 97, 1, 116, 0], 9, 1, 28, [0, 0, 0, 0, 0, 0, 0, 0, 0, 0, 255, 255, 192, 0, 2, 1]⟩),
      .item (.record 27 ⟨[1, 97, 1, 116, 0], 9, 1, 28, [0, 1, 0, 2, 0, 3, 0, 4, 0, 5, 0, 6, 10, 0, 0, 255]⟩),
-     .item (.record 28 ⟨[1, 97, 1, 116, 0], 9, 3, 1, [1, 116, 0, 255, 255]⟩),
-     .item (.incl 29 [120, 32, 121] (some [1, 97, 1, 116, 0])),
-     .item (.incl 30 [122] (some [1, 116, 0]))] := by
+     .item (.record 28 ⟨[1, 97, 1, 116, 0], 9, 1, 11, [10, 0, 0, 1, 6, 129]⟩),
+     .item (.record 29 ⟨[1, 97, 1, 116, 0], 9, 3, 1, [1, 116, 0, 255, 255]⟩),
+     .item (.incl 30 [120, 32, 121] (some [1, 97, 1, 116, 0])),
+     .item (.incl 31 [122] (some [1, 116, 0]))] := by
   rw [C23_records_partial exFile exFile_ok.1 (by simp [exFile, EolsOK, entryEol]) {} CtxWF_default _ exFile_ok.2]
   rfl
 
 /-- the same file, evaluated directly: the text is what it is meant to be and the parser yields
-    sixteen records and two include requests -/
-example : (parseAll (renderFile exFile) {}).length = 18 := by decide +kernel
+    seventeen records and two include requests -/
+example : (parseAll (renderFile exFile) {}).length = 19 := by decide +kernel
 
 /-- RDATA alone: ` ( 10 ;x<CRLF> a )` and then the end of the file, after the type field of an MX
     record, origin `t.` -/
@@ -435,6 +475,51 @@ theorem C23_wks_bitmap (msb : Bool) (addr : List UInt8) (proto : Nat) (ports : L
     newInWksWith msb addr proto ports =
       addr ++ UInt8.ofNat proto :: (wksBitmap ports).map (if msb then id else revBits) :=
   newInWksWith_eq msb addr proto ports
+
+/-- **WKS as written** (for the order of bits the repository has, whichever it is): the text
+    `a.b.c.d  proto  port …` — protocol `TCP` / `UDP` in any mix of upper and lower case or a
+    number, any number of decimal ports, with general gaps (parentheses, line ends, comments)
+    between all fields and before the end of the line — is read as address, protocol and exactly
+    the listed ports, handed to `serialize_in_wks` (`newInWks`; `C23_wks_bitmap` says what that
+    is).  `C23_rdata_partial` contains the consequence: equal to the RFC's RDATA whenever
+    `WksOrderOK`. -/
+theorem C23_wks_text (ctx : Ctx) (G : Nat → PGap) (S : Nat → Bool) (tg : PGap) (cmt : List UInt8) (eol : PEol)
+    (r : List UInt8) (he : eol = .eof → r = []) (line : Nat)
+    (a b c d : Nat) (ha : a ≤ 255) (hb : b ≤ 255) (hc : c ≤ 255) (hd : d ≤ 255)
+    (pr : PCode) (hpr : WFProto pr) (ports : List Nat) (hp : ∀ p ∈ ports, p ≤ 65535) (hlen : ports.length ≤ 65535)
+    (hG : ∀ i, i ≤ 1 + ports.length → GapOK (G i) (S i) (S (i + 1))) (hT : TailOK tg cmt (S (1 + ports.length + 1))) :
+    parseRdata ctx 1 11
+      ⟨gapText (G 0) ++ (rdataText (fun i => G (i + 1)) (.wks a b c d pr ports) ++ (tailText tg cmt eol ++ r)), line, S 0⟩ =
+      .ok (newInWks [UInt8.ofNat a, UInt8.ofNat b, UInt8.ofNat c, UInt8.ofNat d] pr.value ports,
+        ⟨r, line + gapLines (G 0) + rdataLines (fun i => G (i + 1)) (.wks a b c d pr ports) + gapLines tg + eolLines eol,
+          false⟩) := by
+  have := parseRdata_wks_text ctx G S tg cmt eol r he line a b c d ha hb hc hd pr hpr ports hp hlen hG hT
+  simpa [rdataText, rdataLines, Nat.add_assoc] using this
+
+private def exG : Nat → PGap
+  | 0 => [.blank false]
+  | 1 => [.blank false, .openParen, .blank false]
+  | 2 => [.blank false]
+  | _ => [.blank false, .newline [59, 120] false, .blank false]
+
+/-- ` 1.2.3.4 ( uDp 25 ;x<LF> 80 )<LF>`: address, protocol 17, ports 25 and 80 — two lines -/
+example : parseRdata {} 1 11
+    ⟨gapText (exG 0) ++ (rdataText (fun i => exG (i + 1)) (.wks 1 2 3 4 (.mnemonic [117, 68, 112] 17) [25, 80]) ++
+      (tailText [.blank false, .closeParen] [] .lf ++ [])), 1, false⟩ =
+    .ok (newInWks [1, 2, 3, 4] 17 [25, 80], ⟨[], 3, false⟩) := by
+  have h := C23_wks_text {} exG (fun i => decide (2 ≤ i)) [.blank false, .closeParen] [] .lf [] (by intro h; cases h) 1
+    1 2 3 4 (by decide) (by decide) (by decide) (by decide) (.mnemonic [117, 68, 112] 17)
+    ⟨"UDP", by decide, by decide +kernel⟩ [25, 80] (by decide) (by decide)
+    (by
+      intro i hi
+      have : i = 0 ∨ i = 1 ∨ i = 2 ∨ i = 3 := by simp at hi; omega
+      rcases this with rfl | rfl | rfl | rfl <;> exact GapOK_of_B (by decide))
+    (TailOK_of_B (by decide))
+  simpa [rdataLines, portsLines, gapLines, exG, eolLines, PCode.value] using h
+
+example : gapText (exG 0) ++ (rdataText (fun i => exG (i + 1)) (.wks 1 2 3 4 (.mnemonic [117, 68, 112] 17) [25, 80]) ++
+      (tailText [.blank false, .closeParen] [] .lf ++ [])) = " 1.2.3.4 ( uDp 25 ;x\n 80 )\n".toUTF8.toList := by
+  decide +kernel
 
 /-- the repository under test (its mask expression is read by the extractor into
     `Gen.wksMaskMsbFirst`): with the RFC's order the parser's WKS RDATA is `wksWire`; with the
